@@ -44,23 +44,23 @@ def Follow.notChar (x : Char) : Follow → Bool
   | .unknown => false
 
 /-- the following text does not start, up to ASCII case, with the (lower-case) character `x` -/
-def Follow.notCharCI (x : Char) : Follow → Bool
+def Follow.notCharCI (low : Char → Char) (x : Char) : Follow → Bool
   | .stop => true
-  | .char c => decide (asciiLower c ≠ x)
+  | .char c => decide (low c ≠ x)
   | .digit => !isDigit x
   | .dotOr none => decide (x ≠ '.')
-  | .dotOr (some c) => decide (x ≠ '.') && decide (asciiLower c ≠ x)
+  | .dotOr (some c) => decide (x ≠ '.') && decide (low c ≠ x)
   | .unknown => false
 
 /-- text steps: the culture's names can be told apart (`monthNamesOK`, `dayNamesOK`, `amPmOK`, `eraOK`) and what
     follows cannot continue a written name into a longer one (the `…Danger` characters) -/
 def textStepOK (cu : Culture) (used : Nat) (f : Follow) : Step → Bool
   | .monthText count =>
-    monthNamesOK cu count (genitiveOf used) && (monthDanger cu count (genitiveOf used)).all f.notCharCI
-  | .dayText count => dayNamesOK cu count && (dayDanger cu count).all f.notCharCI
-  | .amPm count => amPmOK cu count && (amPmDanger cu count).all f.notCharCI
-  | .era => eraOK cu && (eraDanger cu).all f.notCharCI
-  | .eraC cal => eraCOK cu cal && (eraCDanger cu cal).all f.notCharCI
+    monthNamesOK cu count (genitiveOf used) && (monthDanger cu count (genitiveOf used)).all (f.notCharCI (lowC cu))
+  | .dayText count => dayNamesOK cu count && (dayDanger cu count).all (f.notCharCI (lowC cu))
+  | .amPm count => amPmOK cu count && (amPmDanger cu count).all (f.notCharCI (lowC cu))
+  | .era => eraOK cu && (eraDanger cu).all (f.notCharCI (lowC cu))
+  | .eraC cal => eraCOK cu cal && (eraCDanger cu cal).all (f.notCharCI (lowC cu))
   | .calendar => true
   | _ => false
 
